@@ -32,8 +32,16 @@ class HarnessTimeout(BaseException):
     pass
 
 
+class CpuTimeout(BaseException):
+    pass
+
+
 def _alarm(signum, frame):
     raise HarnessTimeout("run exceeded its wall-clock watchdog")
+
+
+def _cpu_alarm(signum, frame):
+    raise CpuTimeout("run exceeded its CPU-time watchdog")
 
 
 def run_seed(run_seed):
@@ -44,23 +52,31 @@ def execute(mod, seed=None, replay=None, keep_trace=False):
     """One run.  Returns (sim, violation|None).  Harness exceptions propagate."""
     sim = Sim(mod.ID, seed=seed, replay=replay, keep_trace=keep_trace)
     _clock.bind(sim)
+    # Two watchdogs: CPU time (a loop that does not terminate burns CPU; immune to VM stalls and
+    # load) decides "does not terminate"; wall time (generous) only catches blocked harnesses.
     limit = getattr(mod, "RUN_WALL_LIMIT_S", 20)
     hang_is_violation = getattr(mod, "HANG_IS_VIOLATION", False)
     old = signal.signal(signal.SIGALRM, _alarm)
-    signal.setitimer(signal.ITIMER_REAL, limit)
+    oldp = signal.signal(signal.SIGPROF, _cpu_alarm)
+    signal.setitimer(signal.ITIMER_REAL, max(120, limit * 6))
+    signal.setitimer(signal.ITIMER_PROF, limit)
     try:
         try:
             mod.run(sim)
             return sim, sim.violation
         except Violation as v:
             return sim, sim.violation or v
-        except HarnessTimeout:
+        except CpuTimeout:
             if sim.violation is not None:
                 return sim, sim.violation
             if hang_is_violation:
-                v = Violation(mod.ID, "terminates", "watchdog", "run exceeded %ss" % limit)
+                v = Violation(mod.ID, "terminates", "watchdog", "run used more than %ss of CPU time" % limit)
                 sim.event("VIOLATION", "terminates", "watchdog")
                 return sim, v
+            raise HarnessTimeout("run exceeded its CPU-time watchdog (%ss)" % limit)
+        except HarnessTimeout:
+            if sim.violation is not None:
+                return sim, sim.violation
             raise
         except Exception:
             # an oracle failure swallowed by the code under test (e.g. inside a
@@ -71,7 +87,9 @@ def execute(mod, seed=None, replay=None, keep_trace=False):
             raise
     finally:
         signal.setitimer(signal.ITIMER_REAL, 0)
+        signal.setitimer(signal.ITIMER_PROF, 0)
         signal.signal(signal.SIGALRM, old)
+        signal.signal(signal.SIGPROF, oldp)
         cleanup = getattr(mod, "cleanup", None)
         if cleanup is not None:
             try:
@@ -295,6 +313,11 @@ def search(mod, tier, base_seed, workers=None, budget_s=None, max_runs=None, qui
     violations = []  # (index, seed, sig, detail, tape)
     known_seen = Counter()
 
+    # freeze the parent's heap: the first full GC in a forked worker would otherwise write to every
+    # inherited object's GC header and copy-on-write-fault the whole heap (very slow under load)
+    import gc
+    gc.collect()
+    gc.freeze()
     ctx = multiprocessing.get_context("fork")
     next_start = 0
     pending = set()
